@@ -22,6 +22,10 @@ claim("C15", "static call graph reachability (panic sites), dominance of index u
       "Static rules over webtransport/conn.go read paths: the only panic reachable from NextReader/ReadMessage/messageReader.Read is the documented repeated-read guard (>=1000); every use of header bytes is dominated by the err==nil edge of its read(n) and fits in n; readRemaining is written only by setReadRemaining which rejects negatives and whose callers propagate the error; the reader clamps to readRemaining and skips leftovers; the read limit (accumulate, overflow test, limit test → CloseWithError+ErrReadLimit) dominates every successful data-frame return; readErr is monotone (first failure or EOF→unexpected-EOF refinement) and returned by the error exit; stale readers are inert. Totality over every byte stream as a run-time fact is not decided.",
       TB, "DESIGN.md §3 C15")
 
+claim("C20", "must-held-lock dataflow per field access, who-may-call for lock-free helpers, parameter-aliasing rules on append/store/return, two-sided bound facts by edge dominance, emitter shape rules",
+      "Static rules over types/slice.go, set.go, map.go, events.go, utils/parameter-bag.go, yeast.go, base64id.go: every access of a guarded field is under the right (R)W lock and lock-free helpers are only called with it held (Map: dirty/misses/read.Store/*Locked under mu); no Slice method stores, appends onto or returns caller-shared storage; every parameter-dependent index/slice bound/make length is bounded on both sides before use; no nil entry can enter a listener slice, Emit iterates a snapshot once per entry, Once runs inside sync.Once, RemoveListener removes exactly one; ids embed all 64 bits of an atomic counter in URL-safe base64 and Yeast is one critical section. Linearizability of concurrent histories is not decided (lock discipline is the structural necessary condition).",
+      TB, "DESIGN.md §3 C20")
+
 UNDER_CONSTRUCTION = "static rule set designed in DESIGN.md §3 but its checker is not built yet in this revision; not claimed until it is"
 
 def main():
